@@ -9,6 +9,7 @@ from .. import harness, par
 
 PID = "C06"
 MARK = "x"
+YMARK = "y"
 
 
 def concretize(prog):
@@ -16,11 +17,24 @@ def concretize(prog):
     templates = {}
     data = {f"a{i}": list(range(1, c["n"] + 1)) for i, c in enumerate(prog)}
 
+    def leaf(i, c):
+        """the sibling of level i: a repeating construct whose body is the mark y"""
+        sk, arr = c.get("sk", "none"), f"s{i}"
+        if sk == "none":
+            return ""
+        data[arr] = list(range(1, c["sn"] + 1))
+        if sk == "for":
+            return f"{{% for w{i} in {arr} %}}{YMARK}{{% endfor %}}"
+        if sk == "tablerow":
+            return f"{{% tablerow w{i} in {arr} %}}{YMARK}{{% endtablerow %}}"
+        templates[f"q{i}"] = YMARK
+        return f"{{% include 'q{i}' for {arr} %}}" if sk == "incfor" else f"{{% render 'q{i}' for {arr} %}}"
+
     def build(i):
         if i == len(prog):
             return MARK
         k = prog[i]["k"]
-        inner = build(i + 1)
+        inner = leaf(i, prog[i]) + build(i + 1)
         if k == "for":
             return f"{{% for v{i} in a{i} %}}{inner}{{% endfor %}}"
         if k == "tablerow":
@@ -43,7 +57,7 @@ def replay_one(case):
     for how in ("sync", "async"):
         o = harness.run(env, src, data, how)
         if "out" in o:
-            obs = {"status": "ok", "bodies": o["out"].count(MARK)}
+            obs = {"status": "ok", "bodies": o["out"].count(MARK), "ybodies": o["out"].count(YMARK)}
         else:
             obs = {"status": o["err"], "bodies": -1, "liquid": o.get("liquid")}
         res.append((how, obs))
@@ -51,7 +65,7 @@ def replay_one(case):
 
 
 def signature(case, obs):
-    kinds = "/".join(c["k"] for c in case["prog"])
+    kinds = "/".join(c["k"] + ("+" + c["sk"] if c.get("sk", "none") != "none" else "") for c in case["prog"])
     return f"nest:{kinds}:{obs['status']}"
 
 
@@ -63,21 +77,27 @@ def run(tier: str) -> int:
                       "each under every limit adjacent to one of its prefix products (TLC enumerates; LoopNest.tla gives the "
                       "expected status and number of innermost block executions); rendered sync and async; distinct = distinct "
                       "(program, limit); non-trivial = depth>=2") % ("3" if tier == "quick" else "4")
-    r = run_tlc("LoopNest", f"cfg/LoopNest_{tier}.cfg", workers=1, timeout=3000, coverage=False)
-    ck.tlc("LoopNest_" + tier, r)
-    if r.violated:
-        ck.fail(f"LoopNest.tla invariant {r.violated} violated in the model", {"tlc": r.out[-3000:]})
-        return ck.finish()
+    from ..tlcrun import run_many
+    rs = run_many([("LoopNest", f"cfg/LoopNest_{tier}.cfg", dict(workers=1, timeout=3000)),
+                   ("LoopNest", f"cfg/LoopNest_{tier}_sib.cfg", dict(workers=1, timeout=3000))])
+    cases = []
+    for name, r in zip((tier, tier + "_sib"), rs):
+        ck.tlc("LoopNest_" + name, r)
+        if r.violated:
+            ck.fail(f"LoopNest.tla invariant {r.violated} violated in the model", {"tlc": r.out[-3000:]})
+            return ck.finish()
+        cases += r.emitted
     dev = run_tlc("LoopNest", "cfg/LoopNest_deviation.cfg", workers=4, timeout=600, expect_violation=True)
     if not dev.violated:
         raise MachineryError("deviation config does not violate MechanismTracksNest: model is vacuous")
     ck.cov["deviation_demo"] = "Deviations={tablerow,incfor,renderfor} violates " + dev.violated
-    cases = r.emitted
     if tier == "thorough":
         # add sampled larger lengths / limits (quantifier: lengths 0..12, limits 1..200), expectations by the same rule
         cases = cases + _large_cases(rnd, 20000)
-    elif len(cases) > 60000:
-        cases = rnd.sample(cases, 60000)
+        if len(cases) > 400000:
+            cases = rnd.sample(cases, 400000)
+    elif len(cases) > 50000:
+        cases = rnd.sample(cases, 50000)
     results = par.pmap(replay_one, cases)
     for case, res in zip(cases, results):
         for how, obs in res:
@@ -89,6 +109,8 @@ def run(tier: str) -> int:
                 bad = f"status {obs['status']} but LoopNest.tla requires {exp_status}"
             elif exp_status == "ok" and obs["bodies"] != exp_bodies:
                 bad = f"{obs['bodies']} block executions, LoopNest.tla requires {exp_bodies}"
+            elif exp_status == "ok" and obs["ybodies"] != case.get("ybodies", 0):
+                bad = f"{obs['ybodies']} sibling block executions, LoopNest.tla requires {case.get('ybodies', 0)}"
             if bad:
                 src, templates, data = concretize(case["prog"])
                 ck.fail(bad, {"case": case, "mode": how, "observed": obs, "source": src, "partials": templates, "data": data},
@@ -116,7 +138,8 @@ def _large_cases(rnd, n):
                 k = "for"
             if k in ("renderfor", "render", "call"):
                 copied = True
-            prog.append({"k": k, "n": rnd.randint(0, 12) if k in ("for", "tablerow", "incfor", "renderfor") else 1})
+            prog.append({"k": k, "n": rnd.randint(0, 12) if k in ("for", "tablerow", "incfor", "renderfor") else 1,
+                         "sk": "none", "sn": 0})
         prods, p = [], 1
         for c in prog:
             p *= c["n"]
@@ -133,7 +156,7 @@ def _large_cases(rnd, n):
                 break
         if status == "ok":
             bodies = p
-        out.append({"prog": prog, "N": N, "status": status, "bodies": bodies})
+        out.append({"prog": prog, "N": N, "status": status, "bodies": bodies, "ybodies": 0})
     return out
 
 
